@@ -190,6 +190,35 @@ def table():
     return _TABLE
 
 
+def _uncalled_inherent(ctx, crate, key, tag):
+    import q
+    bs = [b for b in crate.bodies if b.key == key and b.kind in ("Fn", "AssocFn")]
+    if not bs or any(b.d.get("impl_trait") for b in bs):
+        return False
+    cfg = tag[1:] if tag.startswith("@") else "cfgA"
+    try:
+        crs = list(ctx.facts(cfg).crates.values())
+    except Exception:
+        crs = [crate]
+    for cr in crs:
+        for b in cr.bodies:
+            if b.crate.is_test:
+                continue
+            if b.calls_to(key):
+                return False
+            # taken as a function value (`map(Self::helper)`)
+            for i, j, s_ in b.assigns():
+                r = s_["r"]
+                for o in ([r.get("o")] if r.get("o") else []) + list(r.get("ops") or []):
+                    if isinstance(o, dict) and o.get("k") == "const" and isinstance(o.get("fn"), dict) and strip_generics(o["fn"].get("path", "")) == key:
+                        return False
+            for i, t in b.calls():
+                for o in t.get("args", []):
+                    if isinstance(o, dict) and o.get("k") == "const" and isinstance(o.get("fn"), dict) and strip_generics(o["fn"].get("path", "")) == key:
+                        return False
+    return True
+
+
 def check(ctx, crate, rule, prefixes, tag=""):
     """Every function whose key starts with one of `prefixes`: its effect signature is within the reviewed one.  A reviewed
     single-caller helper that no longer exists donates its signature to that caller (inlined by hand)."""
@@ -220,6 +249,12 @@ def check(ctx, crate, rule, prefixes, tag=""):
         if ref is None:
             # a function that is not in the reviewed table and was not inlined (recursive / async / uncalled): report its effects
             # (only state-modifying ones are reported: a new read-only accessor cannot break an anchored mechanism)
+            if wr and _uncalled_inherent(ctx, crate, k, tag):
+                # new API that nothing in the workspace calls (an inherent method or free function - not a trait impl, which std or
+                # a caller's generic code may dispatch to): no operation the properties quantify over can reach it
+                ctx.ob(R, k, "new-function-is-not-called-anywhere", True, "",
+                       "not in the reviewed table, modifies %s, but is neither a trait method nor called from any crate of the workspace" % ", ".join(sorted(wr)))
+                continue
             if wr:
                 ctx.ob(R, k, "unreviewed-function-modifies:%s" % ",".join(sorted(wr)), False, "",
                        "a function that is not in the reviewed effect table (and is not a helper that could be inlined) modifies %s" % ", ".join(sorted(wr)))
